@@ -10,7 +10,9 @@ Definition comment : Type := (N * str)%type.      (* ast::Comment { pos, text } 
 
 Record cstate : Type := {
   c_all : list comment;     (* Parser.comments, newest first *)
-  c_lead : list comment     (* Parser.lead_comments, newest first *)
+  c_lead : list comment;    (* Parser.lead_comments, newest first *)
+  c_prev : option N         (* end of the trailing comment line_end_comment just took: where
+                               the Parser::next that follows starts from *)
 }.
 
 Definition scan_err : Type := (N * N)%type.       (* (line, column) of a scanner error *)
@@ -43,34 +45,35 @@ Fixpoint comment_loop (prev : option N) (line : N) (d : cstate) (g : list commen
                    | None => (pos, text) :: lead
                    end in
       comment_loop prev (line_of ended)
-        {| c_all := record_comment (pos, text) (c_all d); c_lead := lead' |} g'
+        {| c_all := record_comment (pos, text) (c_all d); c_lead := lead'; c_prev := None |} g'
   end.
 
-Definition p_next (d : cstate) (prev : option N) (g : list comment) (tokpos : option N) : cstate :=
+Definition p_next (d : cstate) (prev0 : option N) (g : list comment) (tokpos : option N) : cstate :=
+  let prev := match c_prev d with Some e => Some e | None => prev0 end in
   (* lead comments of the token left behind are dropped first *)
-  let d1 := comment_loop prev 0 {| c_all := c_all d; c_lead := [] |} g in
+  let d1 := comment_loop prev 0 {| c_all := c_all d; c_lead := []; c_prev := None |} g in
   match c_lead d1, tokpos with
   | (cpos, ctext) :: _, Some pos =>
       let end_line := line_of (cpos + lenN ctext) in
       if end_line + 1 <? line_of pos
-      then {| c_all := c_all d1; c_lead := [] |} else d1
+      then {| c_all := c_all d1; c_lead := []; c_prev := None |} else d1
   | _, _ => d1
   end.
 
 Definition p_drain (d : cstate) : list comment * cstate :=
-  (rev (c_lead d), {| c_all := c_all d; c_lead := [] |}).
+  (rev (c_lead d), {| c_all := c_all d; c_lead := []; c_prev := c_prev d |}).
 
 Definition p_line_end (d : cstate) (semi : N) (g : list comment) (next_start : option N)
-           (c : list comment) : list comment * list comment * cstate * option N :=
-  let cleared := {| c_all := c_all d; c_lead := [] |} in
+           (c : list comment) : list comment * list comment * cstate :=
+  let cleared := {| c_all := c_all d; c_lead := []; c_prev := None |} in
   match g with
-  | [] => (c, g, match next_start with Some _ => cleared | None => d end, None)
+  | [] => (c, g, match next_start with Some _ => cleared | None => d end)
   | (pos, text) :: g' =>
       if line_of semi =? line_of pos
       then (c ++ [(pos, text)], g',
-            {| c_all := record_comment (pos, text) (c_all d); c_lead := [] |},
-            Some (pos + lenN text))
-      else (c, g, cleared, None)
+            {| c_all := record_comment (pos, text) (c_all d); c_lead := [];
+               c_prev := Some (pos + lenN text) |})
+      else (c, g, cleared)
   end.
 
 Definition policy_ops : ops N (list comment) cstate (list comment) :=
